@@ -26,7 +26,7 @@ UNIVERSE_COMMON = {
     "I": ("iface", True, True, 0), "J": ("iface", True, True, 0), "K": ("iface", True, True, 0),
     "G": ("struct", None, True, 1), "H": ("struct", None, True, 2),
     "AT": ("alias:T", True, True, 0), "AE": ("alias:E", True, True, 0), "AI": ("alias:I", True, True, 0),
-    "Ptr": ("ptr", True, False, 0),
+    "Ptr": ("ptr", True, False, 0), "Ch": ("chan", True, True, 0),
 }
 ALIAS_TARGET = {"AT": "T", "AE": "E", "AI": "I"}
 
@@ -53,6 +53,7 @@ type AT = T
 type AE = E
 type AI = I
 type Ptr *T
+type Ch chan int
 type t struct{ z int }
 
 func (T) M() int      { return 0 }
@@ -72,8 +73,29 @@ type Kb interface{ b() int }
 type Xa struct{}
 type Xb struct{}
 
-func (Xa) a() int { return 1 }
-func (Xb) b() int { return 2 }
+func (Xa) a() int { return pkgID*10 + 1 }
+func (Xb) b() int { return pkgID*10 + 2 }
+
+type Xa2 struct{}
+
+func (Xa2) a() int { return pkgID*10 + 3 }
+
+// a call through an interface value of the instantiating type (interface{ p.Ka; q.Ka } has TWO methods named a)
+func CallKa[T Ka](x T) int { return x.a() }
+
+// a non-ASCII exported method name sorts AFTER every `pkgpath.name` of an unexported method
+type Uni interface {
+	Äb() int
+	b() int
+	Zc() int
+	x() int
+}
+type UniT struct{}
+
+func (UniT) Äb() int { return 1 }
+func (UniT) b() int  { return 2 }
+func (UniT) Zc() int { return 3 }
+func (UniT) x() int  { return 4 }
 
 type Kab interface {
 	a() int
@@ -604,6 +626,11 @@ def mutate_node(rng, n, ctx, cmpc, gen):
             opts.append((('st', (("X", False, None, ('b', 'int')),)), "named-vs-underlying"))
         if name == "E":
             opts.append((('b', 'int'), "named-vs-underlying"))
+        under = {"Fn": ('f', (('b', 'int'),), (('b', 'string'),), False), "Sl": ('s', ('b', 'int')), "Mp": ('m', ('b', 'string'), ('b', 'int')),
+                 "Ch": ('c', '', ('b', 'int')), "Ptr": ('p', ('n', pkg, 'T', ()))}
+        if name in under and (not cmpc or name in ("Ch", "Ptr")):
+            opts.append((under[name], "named-vs-underlying"))
+            opts.append((under[name], "named-vs-underlying"))
         if not opts:
             return None
         return rng.choice(opts)
